@@ -154,6 +154,18 @@ pub fn builder_profile() -> Profile {
     p
 }
 
+/// bodies that exist only because a built function replaced an import: the module is parsed without
+/// any local function and nothing is ever added through `finish_module`
+pub fn builder_imports_only_profile() -> Profile {
+    let mut p = builder_profile();
+    p.name = "builder-on-imports-only";
+    p.min_local_funcs = 0;
+    p.max_local_funcs = 0;
+    p.max_imp_funcs = 4;
+    p.ops = w(&[("replace_import", 8), ("add_import_func", 2), ("set_fn_name", 1), ("inject", 1), ("add_global", 1)]);
+    p
+}
+
 /// builder on modules whose type section has explicit rec groups, GC types and duplicates
 /// (type IDs of new signatures are then not simply "number of groups")
 pub fn builder_gc_profile() -> Profile {
@@ -479,7 +491,7 @@ pub fn check_def(id: &str) -> Option<CheckDef> {
         "C09" => d("C09", vec![delete_profile(false), delete_profile(true)]),
         "C10" => d("C10", vec![replace_profile()]),
         "C11" => d("C11", vec![convert_profile()]),
-        "C12" => d("C12", vec![builder_profile(), builder_gc_profile()]),
+        "C12" => d("C12", vec![builder_profile(), builder_gc_profile(), builder_profile(), builder_imports_only_profile()]),
         "C13" => CheckDef {
             hash_seeds: (4, 8),
             quick_runs: 40_000,
@@ -549,6 +561,9 @@ fn owns(id: &str, m: &Mismatch) -> bool {
                 || (k == "returned_id" && s == "build_func")
                 || (k == "unexpected_panic" && s.starts_with("op:build_func"))
                 || (k == "entity_missing" && s == "func")
+                // an output that does not decode shows no built function at all (every history of the
+                // builder profiles builds at least one)
+                || k == "invalid_output"
         }
         "C13" => {
             matches!(k, "type_at_index" | "type_existing_changed")
